@@ -221,6 +221,10 @@ def run_case(case, cfg, out):
             if not check_query(r, required, provided, 'op %d (call)' % k):
                 return
             subs = list(U.regs[r].subscriptions(required, provided))
+            if not all(isinstance(s, SubVal) for s in subs):
+                out.fail('subscriptions', 'op %d: foreign elements %r' % (
+                    k, subs))
+                return
             for s in subs:
                 del s.calls[:]
             res = U.regs[r].subscribers(objs, provided)
